@@ -22,6 +22,7 @@ mod gen_axlin;
 mod pipe;
 mod cmd_genfun;
 mod gen_fun_check;
+mod gen_fun_eval;
 mod gen_fun_mutate;
 mod gen_fun_reduce;
 mod rec;
